@@ -58,7 +58,29 @@ func verifCallSetup() *verifCallWorld {
 			t.currentCall.acceptedAt = time.Now()
 		}
 	}
+	// INV_call (timer part): the establishment timer runs exactly while a call is ringing (not yet accepted)
+	t.callEstablishmentTimer = time.NewTimer(time.Hour)
+	if w.state != 1 {
+		t.callEstablishmentTimer.Stop()
+	}
 	return w
+}
+
+// verifTimerActive reports whether the timer is running (works on a real timer too).
+func verifTimerActive(tm *time.Timer) bool {
+	if tm.Stop() {
+		tm.Reset(time.Hour)
+		return true
+	}
+	return false
+}
+
+// the establishment timer runs exactly while an unaccepted call exists: a ringing call always times out,
+// and nothing times out an accepted or finished call
+func (w *verifCallWorld) assertTimer() {
+	t := w.t
+	ringing := t.currentCall != nil && t.currentCall.acceptedAt.IsZero()
+	verifAssert(verifTimerActive(t.callEstablishmentTimer) == ringing, "establishment-timer-runs-exactly-while-ringing")
 }
 
 type verifCallObs struct {
@@ -165,7 +187,8 @@ func Harness_C15_event_step() {
 		} else {
 			verifAssert(t.currentCall != nil && len(t.currentCall.parties) == oldState, "call-state-unchanged")
 		}
-		verifReach("end")
+		w.assertTimer()
+	verifReach("end")
 		return
 	}
 	switch ev {
@@ -230,6 +253,7 @@ func Harness_C15_event_step() {
 	default:
 		verifAssert(o.nothingHappened() && t.currentCall != nil, "unknown-event-ignored")
 	}
+	w.assertTimer()
 	verifReach("end")
 }
 
@@ -292,6 +316,7 @@ func Harness_C15_invite_step() {
 		}
 		verifAssert(len(o.hub) == 0, "refused-invitation-no-presence")
 	}
+	w.assertTimer()
 	verifReach("end")
 }
 
@@ -326,5 +351,6 @@ func Harness_C15_leave_timeout_step() {
 		t.terminateCallInProgress(true)
 		verifAssert(len(w.fx.store.msgs) == rows, "call-ends-exactly-once")
 	}
+	w.assertTimer()
 	verifReach("end")
 }
